@@ -86,6 +86,11 @@ func suiteExport(c *ctx) {
 		// dropped column / table
 		ss3 := []Stmt{tbl("t", col("a", "int(11)"), col("b", "int(11)", Opt{Kind: "comment", Val: "the b"})), tbl("x", col("a", "int(11)")), {Kind: "dropColumn", T: "t", A: "a"}, {Kind: "dropTable", T: "x"}}
 		emit("w-F17-dropped-elements", runCfg{dialect: "mysql"}, ss3, nil)
+		// comments with double quotes: at both ends, in the middle, a single one (seeded change C14-q)
+		ss7 := []Stmt{tbl("notes", col("id", "int(11)", oPk), col("a", "text", Opt{Kind: "comment", Val: "\"legacy\""}),
+			col("b", "text", Opt{Kind: "comment", Val: "\"on\" or \"off\""}), col("c", "text", Opt{Kind: "comment", Val: "say \"hi\" twice"}),
+			col("d", "text", Opt{Kind: "comment", Val: "\""}))}
+		emit("w-comments-with-double-quotes", runCfg{dialect: "mysql"}, ss7, nil)
 	}
 	for i := 0; i < n; i++ {
 		dialect := []string{"mysql", "mysql", "mysql", "mysql", "postgres", "sqlite3"}[c.rng.Intn(6)]
